@@ -200,17 +200,23 @@ def judge(case, ctx):
         if compare(got, exp) and sum(r[-1] for r in got[1:]) != len(rows):
             out.append({'kind': 'group-counts-do-not-add-up'})
     elif form in ('aggregate-multi-dict', 'aggregate-multi-list'):
-        spec = [('n', len), ('ids', 'id', list), ('total', 'v', sum), ('rows', rec_rows), ('pairs', ('id', 'v'), list), ('jid', ('j', 'id'), list)]
+        # every documented spec shape: callable, (field, fn), (fields, fn), and the short forms 'field' / ('field',) (list is the
+        # default aggregation) and (callable,) (whole rows)
+        spec = [('n', len), ('ids', 'id', list), ('total', 'v', sum), ('rows', rec_rows), ('pairs', ('id', 'v'), list), ('jid', ('j', 'id'), list),
+                ('vs', 'v'), ('js', 'j'), ('cnt', len)]      # in the list form (name, 'field') and (name, fn) *are* the short forms
         if form == 'aggregate-multi-dict':
             agg = OrderedDict((s[0], s[1] if len(s) == 2 else tuple(s[1:])) for s in spec)
+            agg['js'] = ('j',)
+            agg['cnt'] = (len,)
         else:
             agg = [tuple(s) for s in spec]
         got = util.attempt_rows(lambda: petl.aggregate(src, keyarg, agg, **kw))
         ji = hdr.index('j')
-        exp = [khdr + ('n', 'ids', 'total', 'rows', 'pairs', 'jid')]
+        exp = [khdr + ('n', 'ids', 'total', 'rows', 'pairs', 'jid', 'vs', 'js', 'cnt')]
         for g in groups:
             ids = [r[idi] for r in g[1]]
-            exp.append(keycells(g) + (len(g[1]), ids, sum(r[vi] for r in g[1]), ids, [(r[idi], r[vi]) for r in g[1]], [(r[ji], r[idi]) for r in g[1]]))
+            exp.append(keycells(g) + (len(g[1]), ids, sum(r[vi] for r in g[1]), ids, [(r[idi], r[vi]) for r in g[1]], [(r[ji], r[idi]) for r in g[1]],
+                                      [r[vi] for r in g[1]], [r[ji] for r in g[1]], len(g[1])))
         if compare(got, exp):
             check_log()
     elif form == 'aggregate-none':
